@@ -310,7 +310,9 @@ def rdac_full(prefix_key, variant=0):
     return bytes(d)
 
 
-RDAC_DGRAMS = {"RESET0": b"\x00", "RESET1": b"\x01", "GARBAGE": b"\xaa" * 30, "EMPTY": b""}
+RDAC_DGRAMS = {"RESET0": b"\x00", "RESET1": b"\x01", "GARBAGE": b"\xaa" * 30, "EMPTY": b"",
+               # well-formed HRNP headers that no step waits for: a reject (opcode FC) and a close (opcode FB)
+               "HRNP_REJECT": bytes.fromhex("7e0400fc2010000000 0c 0000".replace(" ", "")), "HRNP_CLOSE": bytes.fromhex("7e0400fb20100000000c0000")}
 for _k in RDAC_PREFIX:
     RDAC_DGRAMS["FULL_" + _k] = rdac_full(_k)
     RDAC_DGRAMS["BARE_" + _k] = RDAC_PREFIX[_k]
